@@ -14,8 +14,12 @@ package core
 
 import (
 	_ "embed"
+	"go/ast"
 	"go/types"
+	"hash/fnv"
+	"reflect"
 	"sort"
+	"strconv"
 	"strings"
 )
 
@@ -23,8 +27,9 @@ import (
 var baselineFieldsText string
 
 type baseEntry struct {
-	sig  string
-	cfgs map[string]bool
+	sig   string
+	cfgs  map[string]bool
+	extra string // functions: structural fingerprint of the body; fields: index in the struct
 }
 
 var baselineFuncInfo, baselineFieldInfo = func() (map[string]baseEntry, map[string]baseEntry) {
@@ -43,6 +48,9 @@ var baselineFuncInfo, baselineFieldInfo = func() (map[string]baseEntry, map[stri
 				for _, c := range strings.Split(parts[2], ";") {
 					e.cfgs[c] = true
 				}
+			}
+			if len(parts) > 3 {
+				e.extra = parts[3]
 			}
 			m[parts[0]] = e
 		}
@@ -148,14 +156,37 @@ func (p *Program) resolveRenames() {
 		k := group(key) + "|" + baselineFuncInfo[key].sig
 		wanted[k] = append(wanted[k], key)
 	}
+	pairFn := func(old string, fn *types.Func) {
+		p.fnByOldKey[old] = fn
+		p.renamedFn[fn] = true
+		canon[fn] = old[strings.LastIndex(old, ".")+1:]
+		p.Renames = append(p.Renames, old+" → "+fn.Name())
+	}
 	for k, keys := range wanted {
-		if len(keys) == 1 && len(newcomers[k]) == 1 {
-			fn := newcomers[k][0]
-			old := keys[0]
-			p.fnByOldKey[old] = fn
-			p.renamedFn[fn] = true
-			canon[fn] = old[strings.LastIndex(old, ".")+1:]
-			p.Renames = append(p.Renames, old+" → "+fn.Name())
+		cands := newcomers[k]
+		if len(keys) == 1 && len(cands) == 1 {
+			pairFn(keys[0], cands[0])
+			continue
+		}
+		// several functions of one receiver and signature changed their names together: pair them by the
+		// structure of their bodies (a rename does not change it), when that is unambiguous
+		if len(cands) == 0 {
+			continue
+		}
+		byPrint := map[string][]*types.Func{}
+		for _, fn := range cands {
+			fp := Fingerprint(p.pkgOfObj[fn.Pkg()].TypesInfo, p.declOf[fn])
+			byPrint[fp] = append(byPrint[fp], fn)
+		}
+		wantPrint := map[string][]string{}
+		for _, key := range keys {
+			fp := baselineFuncInfo[key].extra
+			wantPrint[fp] = append(wantPrint[fp], key)
+		}
+		for fp, ks := range wantPrint {
+			if fp != "" && len(ks) == 1 && len(byPrint[fp]) == 1 {
+				pairFn(ks[0], byPrint[fp][0])
+			}
 		}
 	}
 	// struct fields
@@ -181,15 +212,91 @@ func (p *Program) resolveRenames() {
 			k := group(key) + "|" + baselineFieldInfo[key].sig
 			wantF[k] = append(wantF[k], key)
 		}
+		pairField := func(old string, f *types.Var) {
+			p.fieldByOldKey[old] = f
+			canon[f] = old[strings.LastIndex(old, ".")+1:]
+			p.Renames = append(p.Renames, old+" → "+f.Name())
+		}
+		fieldIndex := func(f *types.Var) string {
+			for key, g := range fields {
+				if g == f {
+					tn, _ := pk.Types.Scope().Lookup(strings.Split(strings.TrimPrefix(key, pk.PkgPath+"."), ".")[0]).(*types.TypeName)
+					if tn != nil {
+						if st, ok := tn.Type().Underlying().(*types.Struct); ok {
+							for i := 0; i < st.NumFields(); i++ {
+								if st.Field(i) == f {
+									return strconv.Itoa(i)
+								}
+							}
+						}
+					}
+				}
+			}
+			return ""
+		}
 		for k, keys := range wantF {
-			if len(keys) == 1 && len(newF[k]) == 1 {
-				f := newF[k][0]
-				old := keys[0]
-				p.fieldByOldKey[old] = f
-				canon[f] = old[strings.LastIndex(old, ".")+1:]
-				p.Renames = append(p.Renames, old+" → "+f.Name())
+			cands := newF[k]
+			if len(keys) == 1 && len(cands) == 1 {
+				pairField(keys[0], cands[0])
+				continue
+			}
+			// several fields of one struct and type renamed together: a rename keeps a field's position
+			for _, key := range keys {
+				want := baselineFieldInfo[key].extra
+				var hit []*types.Var
+				for _, f := range cands {
+					if want != "" && fieldIndex(f) == want {
+						hit = append(hit, f)
+					}
+				}
+				if len(hit) == 1 {
+					pairField(key, hit[0])
+				}
 			}
 		}
 	}
 	sort.Strings(p.Renames)
+}
+
+// Fingerprint hashes the structure of a function body: node kinds, operators and literals, but no
+// identifier names and no positions – what a consistent rename leaves unchanged.
+func Fingerprint(info *types.Info, d *ast.FuncDecl) string {
+	if d == nil || d.Body == nil {
+		return ""
+	}
+	h := fnv.New64a()
+	ast.Inspect(d.Body, func(n ast.Node) bool {
+		if n == nil {
+			h.Write([]byte{0})
+			return true
+		}
+		h.Write([]byte(reflect.TypeOf(n).String()))
+		switch x := n.(type) {
+		case *ast.Ident:
+			// names of package-level objects, fields and methods are part of the structure (they tell
+			// `return el.read(x)` from `return el.write(x)`); names of locals and parameters are not
+			if info != nil {
+				var o types.Object = info.Uses[x]
+				if o != nil {
+					if v, isVar := o.(*types.Var); !isVar || v.IsField() || (o.Pkg() != nil && o.Parent() == o.Pkg().Scope()) {
+						h.Write([]byte(x.Name))
+					}
+				}
+			}
+		case *ast.BasicLit:
+			h.Write([]byte(x.Value))
+		case *ast.BinaryExpr:
+			h.Write([]byte(x.Op.String()))
+		case *ast.UnaryExpr:
+			h.Write([]byte(x.Op.String()))
+		case *ast.AssignStmt:
+			h.Write([]byte(x.Tok.String()))
+		case *ast.IncDecStmt:
+			h.Write([]byte(x.Tok.String()))
+		case *ast.BranchStmt:
+			h.Write([]byte(x.Tok.String()))
+		}
+		return true
+	})
+	return strconv.FormatUint(h.Sum64(), 16)
 }
